@@ -8,7 +8,7 @@ from hypothesis import strategies as st
 
 from .. import keymodel as km
 from ..common import Res, exc_str, hyp_campaign, tb_tail
-from ..simio import LineInjector, Patched, PipeStream, PtyStream, Sim, WouldBlockForever, close_trigger_fds
+from ..simio import LineInjector, Patched, PipeStream, PtyStream, Sim, SpinsForever, WouldBlockForever, close_trigger_fds
 
 PROP = "C08"
 RULE = (
@@ -113,7 +113,17 @@ def run_case(case):
     inp = None
     try:
         keynames = case.get("keynames", "bytes")
-        inp = ci.Input(in_stream=stream, keynames=keynames, paste_threshold=threshold, sigint_event=sigint_event)
+        dtss = bool(case.get("disable_terminal_start_stop")) and setup == "pty"
+        form = case.get("ctor_form", 0)  # the same construction spelt with keywords, positionally, or mixed
+        if form == 1:
+            inp = ci.Input(stream, keynames, threshold, sigint_event, dtss)
+        elif form == 2:
+            inp = ci.Input(stream, keynames, threshold, sigint_event=sigint_event, disable_terminal_start_stop=dtss)
+        else:
+            inp = ci.Input(in_stream=stream, keynames=keynames, paste_threshold=threshold, sigint_event=sigint_event,
+                           disable_terminal_start_stop=dtss)
+        if form:
+            res.label("positional_constructor_arguments")
         if keynames != "bytes":
             res.label("keynames_" + keynames)
         ntrig = case.get("triggers", {"plain": 2, "threadsafe": 2, "scheduled": 2})
@@ -175,6 +185,11 @@ def run_case(case):
 
         def act_sigint():
             if sigint_event and entered:
+                if signal.getsignal(signal.SIGINT) is old_handler:
+                    # the Input was constructed with sigint_event=True and entered on the main thread, yet SIGINT is still
+                    # handled by whatever was installed before: a Ctrl-C would not become an event (reported, not raised)
+                    trigger_failures.append("sigint_event=True but no SIGINT handler was installed by entering the context")
+                    return
                 model.sigints += 1
                 signal.raise_signal(signal.SIGINT)
 
@@ -246,6 +261,9 @@ def run_case(case):
                             out = inp.send(timeout)
                     else:
                         out = inp.send(timeout)
+                except SpinsForever:
+                    res.viol("request_never_returns", detail="select on an invalid descriptor set is retried forever", step=label_step, case=case)
+                    return "stop"
                 except WouldBlockForever:
                     # plain event_trigger events fired during the request do not wake it (documented: checked at the
                     # next request); anything deliverable at the start, threadsafe events and SIGINT events must
@@ -392,10 +410,33 @@ def run_case(case):
                     if request(tmo, label_step="pre_enter") == "stop":
                         stop = True
                         break
+                if case.get("typeahead"):
+                    # typed before the program set the terminal up: waiting in the tty when the context is entered
+                    res.label("bytes_waiting_when_context_entered")
+                    ta = bytes.fromhex(case["typeahead"]["data"])
+                    act_arrive(ta, tokens=case["typeahead"].get("tokens"))
                 inp.__enter__()
                 entered = True
             for si, step in enumerate(case["steps"] if not stop else []):
                 op = step["op"]
+                if op == "reenter":
+                    # the context is left and the same object entered again: what it holds stays held
+                    if entered:
+                        res.label("context_left_and_entered_again")
+                        if model.held:
+                            res.label("reentered_while_holding_bytes")
+                            res.nontrivial = True
+                        inp.__exit__(None, None, None)
+                        entered = False
+                        for tmo in step.get("requests_outside", []):
+                            if request(tmo, label_step="between_contexts") == "stop":
+                                stop = True
+                                break
+                        if stop:
+                            break
+                        inp.__enter__()
+                        entered = True
+                    continue
                 if op == "arrive":
                     data = bytes.fromhex(step["data"])
                     if len(data) > 1024:
@@ -594,6 +635,7 @@ def strategy():
         st.fixed_dictionaries({"op": st.just("fire"), "kind": st.sampled_from(["plain", "ts"]), "i": st.integers(0, 1), "count": st.sampled_from([1, 1, 2, 3])}),
         st.fixed_dictionaries({"op": st.just("schedule"), "i": st.integers(0, 1), "dt": st.sampled_from([-1.0, 0.0, 0.02, 0.1, 0.1, 0.3, 5.0])}),
         st.fixed_dictionaries({"op": st.just("sigint")}),
+        st.fixed_dictionaries({"op": st.just("reenter"), "requests_outside": st.lists(st.sampled_from([0, 0.01]), max_size=1)}),
         st.fixed_dictionaries({"op": st.just("garbage"), "data": st.sampled_from(["c341", "e228a1", "fffe", "c3", "f09f98", "80", "e288", "c0af", "eda080", "1bc3a9"]),
                                "then": st.sampled_from([[], [], ["61", "1b5b41", "c3a9", "62"], ["1b5b313b3543", "7a", "e28882"]])}),
         st.fixed_dictionaries({"op": st.just("advance"), "dt": st.sampled_from([0.01, 0.05, 0.09, 0.1, 0.2, 1.0])}),
@@ -663,6 +705,9 @@ def strategy():
             "bystander": st.sampled_from([False, False, True]),
             "overshoot": st.sampled_from([0.0, 0.0005, 0.0005]),
             "pre_enter_requests": st.lists(st.sampled_from([0, 0, 0.01]), max_size=2),
+            "ctor_form": st.sampled_from([0, 0, 1, 2]),
+            "disable_terminal_start_stop": st.booleans(),
+            "typeahead": st.one_of(st.none(), st.none(), payload_strategy(6).map(lambda t: {"data": t[0].hex(), "tokens": t[1]})),
             "steps": st.lists(step, min_size=1, max_size=15),
         }
     ).map(fix)
@@ -686,6 +731,32 @@ def straddle_cases(tier):
                            "steps": [{"op": "arrive", "data": data.hex(), "tokens": tokens}, {"op": "request", "timeout": 0, "during": [], "inject": None}]}
 
 
+def history_cases():
+    """the decoder's held bytes across the calls that touch them besides requests: bytes handed back with unget_bytes while
+    others are still held, the context left and entered again, bytes typed before the context is entered - in every naming mode"""
+    req = {"op": "request", "timeout": 0, "during": [], "inject": None}
+    keys = [b"a", "é".encode(), b"\x1b[A", b"b", "\U0001f600".encode(), b"\x1b[1;5C"]
+    data = b"".join(keys)
+    toks = [len(k) for k in keys]
+    for keynames in ("bytes", "curtsies", "curses"):
+        for thr in (None, 8):
+            base = {"paste_threshold": thr, "sigint_event": False, "overshoot": 0.0, "keynames": keynames}
+            # read two keys, fetch one, hand back further bytes (read by someone else): they come after the held one
+            for k in range(1, len(keys) - 1):
+                first, rest = b"".join(keys[:k + 1]), keys[k + 1:]
+                yield dict(base, setup="pipe", steps=[{"op": "arrive", "data": first.hex(), "tokens": toks[:k + 1]}, req,
+                                                       {"op": "unget", "data": b"".join(rest).hex(), "tokens": toks[k + 1:], "n": len(rest[0])}, req, req,
+                                                       {"op": "unget", "data": None, "tokens": None, "n": 64}, req])
+            for dtss in (False, True):
+                # everything typed ahead of the context
+                yield dict(base, setup="pty", disable_terminal_start_stop=dtss, typeahead={"data": data.hex(), "tokens": toks}, steps=[req])
+                # read all, fetch one, leave and enter again (with and without a request in between)
+                for outside in ([], [0]):
+                    yield dict(base, setup="pty", disable_terminal_start_stop=dtss,
+                               steps=[{"op": "arrive", "data": data.hex(), "tokens": toks}, req, {"op": "reenter", "requests_outside": outside}, req,
+                                      {"op": "unget", "data": b"zq".hex(), "tokens": [1, 1], "n": 1}, {"op": "reenter", "requests_outside": []}, req])
+
+
 def recovery_cases():
     """undecodable bytes, then well-formed keypresses that must all be delivered; with and without a second Input alive"""
     good = ["\x1b[A".encode(), "é".encode(), b"a", "\x1b[1;5C".encode()]
@@ -706,6 +777,12 @@ def campaign(col, tier, seed, shard, nshards):
         if unknown:
             col.add_violation(case, unknown)
     for i, case in enumerate(straddle_cases(tier)):
+        if i % nshards != shard:
+            continue
+        unknown = col.record(case, run_case(case), distinct=True, sample=False)
+        if unknown:
+            col.add_violation(case, unknown)
+    for i, case in enumerate(history_cases()):
         if i % nshards != shard:
             continue
         unknown = col.record(case, run_case(case), distinct=True, sample=False)
